@@ -52,3 +52,37 @@ Example layer_ex :
                 mkItem false [] [] [1] [mkDecl 3 30 false 0]] in
   winner ex_world sheet 1 1 = Some 10 /\ winner ex_world sheet 1 2 = Some 21 /\ winner ex_world sheet 1 3 = Some 30.
 Proof. vm_compute. repeat split; reflexivity. Qed.
+
+From V Require Import C12.BoxTracker C12.BoxSpec C12.BoxMain C12.DedupeSpec.
+(* box tracker: the witnesses of the two fixed tracker defects and a collapse, on the model *)
+Definition px (v : Z) := TDim v 7.
+Definition vw (v : Z) := TDim v 20.
+Example box_ex_collapse :
+  box_process true true false [mkB (KSide 3) [px 1] false; mkB (KSide 0) [px 2] false; mkB (KOther 1) [] false;
+                               mkB (KSide 1) [px 3] false; mkB (KSide 2) [px 0] false]
+  = [mkB (KOther 1) [] false; mkB KShort [px 2; px 3; TNum 0; px 1] false].
+Proof. vm_compute. reflexivity. Qed.
+Example box_ex_dabbe91 :   (* a{margin:1px;margin-top:1vw;margin-top:0} *)
+  box_process true true false [mkB KShort [px 1] false; mkB (KSide 0) [vw 1] false; mkB (KSide 0) [TNum 0] false]
+  = [mkB (KSide 0) [vw 1] false; mkB KShort [TNum 0; px 1; px 1] false].
+Proof. vm_compute. reflexivity. Qed.
+Example box_ex_dece0db :   (* a{margin:1px;margin-left:2px;margin-top:1vw;margin-left:3px} *)
+  box_process true true false [mkB KShort [px 1] false; mkB (KSide 3) [px 2] false; mkB (KSide 0) [vw 1] false; mkB (KSide 3) [px 3] false]
+  = [mkB KShort [px 1; px 1; px 1; px 2] false; mkB (KSide 0) [vw 1] false; mkB (KSide 3) [px 3] false].
+Proof. vm_compute. reflexivity. Qed.
+Example box_ex_lowered :   (* a{inset:1px 2px 3px 4px;top:9px} without the inset property *)
+  box_process true false true [mkB KShort [px 1; px 2; px 3; TDim 4 7] false; mkB (KSide 0) [TDim 9 7] false]
+  = [mkB (KSide 1) [px 2] false; mkB (KSide 2) [px 3] false; mkB (KSide 3) [TDim 4 7] false; mkB (KSide 0) [TDim 9 7] false].
+Proof. vm_compute. reflexivity. Qed.
+Example box_ex_wf : wf_keys [mkB KShort [px 1] false; mkB (KSide 3) [px 2] true; mkB (KOther 2) [] false].
+Proof. repeat constructor. Qed.
+Example box_ex_values :   (* important beats normal; an unknown unit drops the declaration *)
+  let l := [mkB KShort [px 1] false; mkB (KSide 0) [vw 1] false; mkB (KSide 3) [px 2] true; mkB (KSide 3) [px 5] false] in
+  let e := mkBE (fun _ => false) (fun _ => false) (fun _ _ => false) in
+  side_value e true l 0 = Some (SV (px 1)) /\ side_value e true l 3 = Some (SV (px 2))
+  /\ side_value (mkBE (fun _ => true) (fun _ => false) (fun _ _ => false)) true l 0 = Some (SV (vw 1)).
+Proof. vm_compute. repeat split; reflexivity. Qed.
+Example dedupe_ex :
+  keep_last decl_eqb [mkDecl 1 1 true 0; mkDecl 1 2 false 0; mkDecl 1 1 false 0; mkDecl 1 1 true 0; mkDecl 1 2 false 0]
+  = [mkDecl 1 1 false 0; mkDecl 1 1 true 0; mkDecl 1 2 false 0].
+Proof. vm_compute. reflexivity. Qed.
